@@ -135,6 +135,9 @@ local function run(w)
     return opsi[op](limbs_of_hex(w[2]), n)
   elseif ops[op] then
     return ops[op](w[2] and limbs_of_hex(w[2]), w[3] and limbs_of_hex(w[3]), w[4] and limbs_of_hex(w[4]))
+  elseif op:sub(-2) == '_i' and ops[op:sub(1, -3)] then
+    -- mixed operands: the second one is a plain Lua integer, converted by the module itself
+    return ops[op:sub(1, -3)](limbs_of_hex(w[2]), int_of_hex(w[3]))
   elseif op == 'tobase' then
     return str(bn.tobase(limbs_of_hex(w[2]), int_of_hex(w[3]), flag3(w[4])))
   elseif op == 'frombase' then
